@@ -22,6 +22,20 @@ pub const FIX: &str = "/verif/target/fixtures";
 pub struct Verdict {
     pub kind: u8, // 0 ok 1 err 2 panic
     pub fails: Vec<(String, String)>,
+    /// structural errors of a successful dump (only computed when C01 drives this case list)
+    pub structure: Vec<String>,
+}
+
+/// Set by C01 / C11 when they drive this case list: successful dumps of the hostile-world cases are
+/// also judged by that property's validator (structure; soft-error stream laws).
+pub static EXTRA_JUDGE: std::sync::RwLock<Option<fn(&[u8]) -> Vec<String>>> = std::sync::RwLock::new(None);
+
+fn structure_of(r: &DumpResult) -> Vec<String> {
+    let j = *EXTRA_JUDGE.read().unwrap_or_else(|e| e.into_inner());
+    match (r, j) {
+        (DumpResult::Ok(bytes), Some(f)) => f(bytes),
+        _ => Vec::new(),
+    }
 }
 
 fn panic_key(p: &str) -> String {
@@ -51,7 +65,7 @@ pub fn total_dump(p: &Puppet, o: &DumpOpts, plan: Vec<(String, Alt)>, what: &str
         // the subject tried to signal / trace a pid that is not the target: recorded, harmless here
         let _ = r;
     }
-    Verdict { kind, fails }
+    Verdict { kind, fails, structure: structure_of(&out.result) }
 }
 
 // ---------------------------------------------------------------------------------------------
@@ -156,12 +170,14 @@ pub enum Case {
     Config { which: usize },
     /// every libc call of the baseline trace x alternative
     Libc { key: String, alt: Alt },
+    /// the target is SIGKILLed just before the dumper's keyed libc call
+    Killed { key: String, n: usize },
     /// mutated ELF image at the start of a file mapping (field index in the builder's table, value index)
     ElfInMemory { image: usize, field: usize, value: usize },
 }
 
 impl Case {
-    fn to_json(&self) -> Value {
+    pub fn to_json(&self) -> Value {
         match self {
             Case::Ctx { sp, ip, opts } => json!({"family": "ctx", "sp": sp, "ip": ip, "opts": opts}),
             Case::LiveSp { sp, opts } => json!({"family": "live-sp", "sp": sp, "opts": opts}),
@@ -172,10 +188,11 @@ impl Case {
             Case::ThreadName { name, t } => json!({"family": "thread-name", "name": name, "t": t}),
             Case::Config { which } => json!({"family": "config", "which": which}),
             Case::Libc { key, alt } => json!({"family": "libc", "key": key, "alt": format!("{alt:?}")}),
+            Case::Killed { key, n } => json!({"family": "killed", "key": key, "n": n}),
             Case::ElfInMemory { image, field, value } => json!({"family": "elf-in-memory", "image": image, "field": field, "value": value}),
         }
     }
-    fn from_json(v: &Value) -> Option<Case> {
+    pub fn from_json(v: &Value) -> Option<Case> {
         let g = |k: &str| v.get(k).and_then(|x| x.as_u64()).map(|x| x as usize);
         Some(match v.get("family")?.as_str()? {
             "ctx" => Case::Ctx { sp: g("sp")?, ip: g("ip")?, opts: g("opts")? as u8 },
@@ -187,6 +204,7 @@ impl Case {
             "thread-name" => Case::ThreadName { name: g("name")?, t: g("t")? },
             "config" => Case::Config { which: g("which")? },
             "elf-in-memory" => Case::ElfInMemory { image: g("image")?, field: g("field")?, value: g("value")? },
+            "killed" => Case::Killed { key: v.get("key")?.as_str()?.to_string(), n: g("n")? },
             "libc" => {
                 let alt = v.get("alt")?.as_str()?;
                 let a = if let Some(x) = alt.strip_prefix("Errno(") { Alt::Errno(x.trim_end_matches(')').parse().ok()?) } else if let Some(x) = alt.strip_prefix("Short(") { Alt::Short(x.trim_end_matches(')').parse().ok()?) } else { return None };
@@ -195,7 +213,7 @@ impl Case {
             _ => return None,
         })
     }
-    fn family(&self) -> &'static str {
+    pub fn family(&self) -> &'static str {
         match self {
             Case::Ctx { .. } => "ctx",
             Case::LiveSp { .. } => "live-sp",
@@ -205,6 +223,7 @@ impl Case {
             Case::ThreadName { .. } => "thread-name",
             Case::Config { .. } => "config",
             Case::Libc { .. } => "libc",
+            Case::Killed { .. } => "killed",
             Case::ElfInMemory { .. } => "elf-in-memory",
         }
     }
@@ -358,19 +377,19 @@ fn run_on_host(h: &mut Host, c: &Case) -> Verdict {
             total_dump(&h.b.p, &o, vec![], &format!("configuration: {what}"))
         }
         Case::Libc { key, alt } => total_dump(&h.b.p, &DumpOpts::default(), vec![(key.clone(), alt.clone())], &format!("libc answer {key} -> {alt:?}")),
-        _ => Verdict { kind: 0, fails: vec![("harness".into(), "case routed to the wrong runner".into())] },
+        _ => Verdict { kind: 0, fails: vec![("harness".into(), "case routed to the wrong runner".into())], structure: vec![] },
     }
 }
 
 /// Cases that need a target of their own.
-fn run_standalone(c: &Case) -> Verdict {
+pub fn run_standalone(c: &Case) -> Verdict {
     match c {
         Case::LiveSp { sp, opts } => {
             let mut h = make_host();
             let sps = sp_alphabet(&h.addr, h.hole);
             let v = sps[*sp];
             if v == 0 {
-                return Verdict { kind: 0, fails: vec![] }; // rsp 0 = "skip this thread" (C04)
+                return Verdict { kind: 0, fails: vec![], structure: vec![] }; // rsp 0 = "skip this thread" (C04)
             }
             let t = h.b.p.mkthread(Kind::Spin);
             h.b.p.set_gpr(t, RSP, v);
@@ -379,6 +398,29 @@ fn run_standalone(c: &Case) -> Verdict {
             let mut o = DumpOpts::default();
             opts_bits(&mut o, *opts, &h);
             total_dump(&h.b.p, &o, vec![], &format!("live thread with rsp={v:#x} opts={opts}"))
+        }
+        Case::Killed { key, n } => {
+            let b = build(&Shape::threads(*n));
+            let pid = b.p.pid;
+            let mut before: HashMap<String, crate::env::Callback> = HashMap::new();
+            before.insert(key.clone(), Box::new(move |_| unsafe {
+                libc::syscall(libc::SYS_kill, pid, libc::SIGKILL);
+                // let the kernel tear the threads down before the dumper's call proceeds
+                std::thread::sleep(std::time::Duration::from_millis(2));
+            }));
+            // a dead target is never seen stopped: the writer waits for the caller's stop timeout (bounded wait)
+            let o = DumpOpts { stop_timeout_ms: Some(200), ..Default::default() };
+            let out = env_dump(&b.p, &EnvSpec { opts: o, ..Default::default() }, before, None);
+            let mut fails = Vec::new();
+            let kind = match &out.result {
+                DumpResult::Ok(_) => 0,
+                DumpResult::Err(_) => 1,
+                DumpResult::Panic(m) => {
+                    fails.push((panic_key(m), format!("target killed before {key}: dump panicked: {m}")));
+                    2
+                }
+            };
+            Verdict { kind, fails, structure: structure_of(&out.result) }
         }
         Case::ThreadName { name, t } => {
             let mut shape = Shape::threads(3);
@@ -485,29 +527,9 @@ fn mapping_name_replay(name: &str, rep: &mut Report) {
     }
 }
 
-pub fn run(ctx: &Ctx, rep: &mut Report) {
-    rep.rule = "families: crash-context rsp (23 values) x rip (24) x 3 option sets; live spin-thread rsp (23) x 2; direct auxv phnum(8) x phdr(8) x gate(4) x entry(4); synthetic linker data: every 8-byte field of 2 program headers, 4 dynamic entries, r_debug, 3 link_maps x 22 boundary values + 12 chain shapes; 10 kinds of /dev-backed mappings; 12 hostile thread names x 3 threads; 26 caller-configuration extremes; every libc call of the baseline trace x its alternatives (errno, 1-byte reads); mutated ELF images in a file mapping; mapping names lib.so.<up to 4(5) components over 13 letters> in-process. nontrivial = cases that deviate from the benign default".into();
-    rep.assume("'bounded time' is checked as 20 s per dump on targets with a few MiB of readable memory");
-    let thorough = ctx.tier.is_thorough();
-    if let Some(case) = &ctx.replay {
-        if case.get("family").and_then(|f| f.as_str()) == Some("mapping-name") {
-            mapping_name_replay(case["name"].as_str().unwrap_or(""), rep);
-            return;
-        }
-        let Some(c) = Case::from_json(case) else {
-            rep.machinery("bad replay".into());
-            return;
-        };
-        crate::watch::begin(c.to_json());
-        let v = run_standalone(&c);
-        crate::watch::end();
-        rep.evaluations += 1;
-        for (k, m) in v.fails {
-            rep.violation(&k, &m, case.clone());
-        }
-        return;
-    }
-    name_family(rep, thorough);
+/// Every real-dump case of the hostile-world families, executed; shared with C01, which judges the
+/// structure of the dumps that succeed.
+pub fn run_real_cases(thorough: bool) -> Vec<(Case, Verdict)> {
     // build the case list
     let probe = make_host();
     let n_sp = sp_alphabet(&probe.addr, probe.hole).len();
@@ -585,6 +607,24 @@ pub fn run(ctx: &Ctx, rep: &mut Report) {
             cases.push(Case::Libc { key: c.key.clone(), alt: a });
         }
     }
+    // the target dies (SIGKILL) just before each keyed call of the baseline trace
+    let mut seen = std::collections::HashSet::new();
+    for c in &base_trace {
+        if !seen.insert(c.key.clone()) || (c.key.starts_with("open:/proc/P/stat#") && c.key != "open:/proc/P/stat#0") {
+            continue;
+        }
+        cases.push(Case::Killed { key: c.key.clone(), n: 3 });
+    }
+    if thorough {
+        let h1 = build(&Shape::threads(1));
+        let t1 = crate::envrun::baseline_trace(&h1.p, &DumpOpts::default());
+        let mut seen = std::collections::HashSet::new();
+        for c in &t1 {
+            if seen.insert(c.key.clone()) && !(c.key.starts_with("open:/proc/P/stat#") && c.key != "open:/proc/P/stat#0") {
+                cases.push(Case::Killed { key: c.key.clone(), n: 1 });
+            }
+        }
+    }
     cases.extend(crate::checks::c14e::c02_cases(thorough));
     // host cases run in chunks on shared targets; the rest stand alone
     let (host_cases, solo): (Vec<Case>, Vec<Case>) = cases.iter().cloned().partition(is_host_case);
@@ -610,8 +650,35 @@ pub fn run(ctx: &Ctx, rep: &mut Report) {
         crate::watch::end();
         (c.clone(), v)
     });
+    host_results.into_iter().flatten().chain(solo_results).collect()
+}
+
+pub fn run(ctx: &Ctx, rep: &mut Report) {
+    rep.rule = "families: crash-context rsp (23 values) x rip (24) x 3 option sets; live spin-thread rsp (23) x 2; direct auxv phnum(8) x phdr(8) x gate(4) x entry(4); synthetic linker data: every 8-byte field of 2 program headers, 4 dynamic entries, r_debug, 3 link_maps x 22 boundary values + 12 chain shapes; 10 kinds of /dev-backed mappings; 12 hostile thread names x 3 threads; 26 caller-configuration extremes; every libc call of the baseline trace x its alternatives (errno, 1-byte reads); mutated ELF images in a file mapping; mapping names lib.so.<up to 4(5) components over 13 letters> in-process. nontrivial = cases that deviate from the benign default".into();
+    rep.assume("'bounded time' is checked as 20 s per dump on targets with a few MiB of readable memory");
+    let thorough = ctx.tier.is_thorough();
+    if let Some(case) = &ctx.replay {
+        if case.get("family").and_then(|f| f.as_str()) == Some("mapping-name") {
+            mapping_name_replay(case["name"].as_str().unwrap_or(""), rep);
+            return;
+        }
+        let Some(c) = Case::from_json(case) else {
+            rep.machinery("bad replay".into());
+            return;
+        };
+        crate::watch::begin(c.to_json());
+        let v = run_standalone(&c);
+        crate::watch::end();
+        rep.evaluations += 1;
+        for (k, m) in v.fails {
+            rep.violation(&k, &m, case.clone());
+        }
+        return;
+    }
+    name_family(rep, thorough);
+    let all_results = run_real_cases(thorough);
     let mut per_family: HashMap<&'static str, [u64; 3]> = HashMap::new();
-    for (c, v) in host_results.into_iter().flatten().chain(solo_results) {
+    for (c, v) in all_results {
         rep.evaluations += 1;
         rep.nontrivial += 1;
         per_family.entry(c.family()).or_insert([0; 3])[v.kind as usize] += 1;
